@@ -799,12 +799,13 @@ def run(chk, args):
             mem = Mem(c)
             for op, r in zip(c["ops"], res):
                 chk.count("outcome:" + (r["outcome"][0] if r["outcome"][0] != "exc" else r["outcome"][1]))
-                for key, what in oracle(c, op, r, mem, structs):
+                verdicts = oracle(c, op, r, mem, structs)
+                for key, what in verdicts:
                     if key not in seen_keys or len(chk.failing) < 10:
                         chk.fail_input(key, what, dict(case=c, op=op, observed=dict(outcome=r["outcome"], trace=r["trace"][:12])))
                     seen_keys.add(key)
-                if r["outcome"][0] != "ok":
-                    break
+                if r["outcome"][0] != "ok" or verdicts:
+                    break            # later calls of the case start from a memory that is already wrong
     mid = groups[len(groups) // 3][0]
     chk.sample(dict(case=mid, implementation=[dict(outcome=r["outcome"], commands=[t[:7] for t in r["trace"]][:6])
                                               for r in results[id(mid)]] if isinstance(results[id(mid)][0], dict) else results[id(mid)]))
